@@ -390,6 +390,7 @@ class Run:
         self.violations = []        # [(replay path, summary)]
         self.deferred = []          # correspondence differences: reported at the end, see finish()
         self.known_seen = {}        # finding id -> count
+        self.known_example = {}     # finding id -> first input of this run that showed it
         self.findings = load_findings(pid)
         self.cov = {"evaluations": 0, "distinct_nontrivial": 0, "samples": [], "streams": {}}
         self.notes = []
@@ -416,6 +417,9 @@ class Run:
         unless the searches of this run also produced a concrete property violation."""
         if finding_id and self.known(finding_id):
             self.known_seen[finding_id] = self.known_seen.get(finding_id, 0) + 1
+            if finding_id not in self.known_example:
+                self.known_example[finding_id] = json.loads(json.dumps({"kind": kind, "data": data}, default=str)[:6000] + "") \
+                    if len(json.dumps(data, default=str)) < 5900 else {"kind": kind, "data": str(data)[:3000]}
             return False
         if kind.startswith("correspondence-") and not no_input:
             if len(self.deferred) < 50:
@@ -460,6 +464,7 @@ class Run:
             cov["build_problems"] = self.build.describe()
             cov["gen_files_changed_this_run"] = self.build.changed
         cov["known_findings_seen"] = self.known_seen
+        cov["known_findings_first_example"] = self.known_example
         ev = {"property_id": self.pid, "tier": self.tier, "seed": self.seed, "level": "proof", "coverage": cov,
               "assumptions": (assumptions or []) + self.notes, "wall_s": round(time.time() - self.t0, 2),
               "violations": len(self.violations)}
